@@ -31,8 +31,10 @@ Definition abs_ret_step (m : list (list lvl * msg)) (o : op) : list (list lvl * 
       if e then m' else (split t, mg) :: m'
   | _ => m
   end.
+(* what is observed of a retained message: its payload tag and its QoS *)
+Definition rkey (m : msg) : N := m_tag m * 4 + m_qos m.
 Definition spec_retained (m : list (list lvl * msg)) (f : list lvl) : list N :=
-  map (fun x => m_tag (snd x)) (filter (fun x => matches f (fst x) && negb (m_expired (snd x))) m).
+  map (fun x => rkey (snd x)) (filter (fun x => matches f (fst x) && negb (m_expired (snd x))) m).
 
 Fixpoint check (n : node) (subs : list (skey * sparams)) (rets : list (list lvl * msg)) (hs : list hop) : bool :=
   match hs with
@@ -44,7 +46,7 @@ Fixpoint check (n : node) (subs : list (skey * sparams)) (rets : list (list lvl 
             let existed := snd (insert (split f) s sp n) in
             let sends := (sp_rh sp =? 0) || ((sp_rh sp =? 1) && negb existed) in
             let n' := step n o in
-            list_eqb (sortN (if sends then map m_tag (ret_search_top (split f) n') else [])) tags
+            list_eqb (sortN (if sends then map rkey (ret_search_top (split f) n') else [])) tags
             && list_eqb (sortN (if sends then spec_retained rets (split f) else [])) tags
         | _, _ => true
         end in
@@ -54,7 +56,7 @@ Fixpoint check (n : node) (subs : list (skey * sparams)) (rets : list (list lvl 
       && list_eqb (sortN (map fst (spec_deliver subs (split t)))) recv
       && check n subs rets r
   | HRetQ f tags :: r =>
-      list_eqb (sortN (map m_tag (ret_search_top (split f) n))) tags
+      list_eqb (sortN (map rkey (ret_search_top (split f) n))) tags
       && list_eqb (sortN (spec_retained rets (split f))) tags
       && check n subs rets r
   end.
@@ -80,7 +82,7 @@ Fixpoint first_bad (i : nat) (n : node) (subs : list (skey * sparams)) (rets : l
             let existed := snd (insert (split f) s sp n) in
             let sends := (sp_rh sp =? 0) || ((sp_rh sp =? 1) && negb existed) in
             let n' := step n o in
-            let a := sortN (if sends then map m_tag (ret_search_top (split f) n') else []) in
+            let a := sortN (if sends then map rkey (ret_search_top (split f) n') else []) in
             let b := sortN (if sends then spec_retained rets (split f) else []) in
             if list_eqb a tags && list_eqb b tags then None else Some (i, a, b)
         | _, _ => None
@@ -91,7 +93,7 @@ Fixpoint first_bad (i : nat) (n : node) (subs : list (skey * sparams)) (rets : l
       let b := sortN (map fst (spec_deliver subs (split t))) in
       if list_eqb a recv && list_eqb b recv then first_bad (S i) n subs rets r else Some (i, a, b)
   | HRetQ f tags :: r =>
-      let a := sortN (map m_tag (ret_search_top (split f) n)) in
+      let a := sortN (map rkey (ret_search_top (split f) n)) in
       let b := sortN (spec_retained rets (split f)) in
       if list_eqb a tags && list_eqb b tags then first_bad (S i) n subs rets r else Some (i, a, b)
   end.
